@@ -666,7 +666,7 @@ def run_case(idx, rng, tier, rep):
         """Calls that must raise; they have to be silent and must not disturb anything."""
         X = sides[x]
         conn_ops = ['bad-headers', 'unknown-stream-data', 'too-low-id', 'closed-stream', 'oversize-data', 'bad-settings', 'bad-ping',
-                    'zero-increment', 'fsm-refused']
+                    'zero-increment', 'fsm-refused', 'bad-promised-id', 'bad-promised-id', 'bad-priority']
         k = rng.choice(conn_ops)
         sid = None
         if k == 'bad-headers':
@@ -707,6 +707,23 @@ def run_case(idx, rng, tier, rep):
             r = call(x, 'send_data', sid, b'z' * (win + 1))
             if isinstance(r.exc, h2.exceptions.FlowControlError) or isinstance(r.exc, h2.exceptions.FrameTooLargeError):
                 sid = sid
+        elif k == 'bad-promised-id':
+            # a push whose header list is fine (and full of fields the peer has not seen yet) but whose promised id is unusable
+            if X.client:
+                return False
+            par = pick(X, lambda i, s: sendable(s) and s['by'] == 'P' and i % 2 == 1)
+            if par is None:
+                return False
+            used = [i for i in X.st if i % 2 == 0]
+            bad = rng.choice(used + [X.next_id + 1, 2 ** 31 + 2] if used else [X.next_id + 1, 2 ** 31 + 2])
+            r = call(x, 'push_stream', par, bad, make_headers(rng, 'request', tag()) + [(b'x-new-%d' % tag(), b'only-in-the-refused-call')])
+            sid = None          # nothing may have changed on the parent either; the stream check below would not apply to a push
+        elif k == 'bad-priority':
+            if not X.client:
+                return False
+            nid = X.next_id
+            r = call(x, 'send_headers', nid, make_headers(rng, 'request', tag()) + [(b'x-new-%d' % tag(), b'only-in-the-refused-call')],
+                     priority_depends_on=nid, priority_weight=rng.choice([1, 300]))
         elif k == 'bad-settings':
             r = call(x, 'update_settings', {wire.S_MAX_CONCURRENT_STREAMS: 7, wire.S_ENABLE_PUSH: 3})
         elif k == 'bad-ping':
